@@ -372,6 +372,7 @@ func hostile(c *evid.Ctx, items []item, w *shard.W, maxOff int) {
 	if pf := os.Getenv("VERIF_C04_PROGRESS"); pf != "" {
 		pr.f, _ = os.OpenFile(pf, os.O_RDWR|os.O_CREATE, 0o644)
 	}
+	allocViols := 0
 	resItem, resOff, resPat := -1, -1, -1
 	if r := os.Getenv("VERIF_C04_RESUME"); r != "" {
 		fmt.Sscanf(r, "%d,%d,%d", &resItem, &resOff, &resPat)
@@ -392,7 +393,7 @@ func hostile(c *evid.Ctx, items []item, w *shard.W, maxOff int) {
 		patNo := 0
 		apply := func(off int, pat []byte) {
 			patNo++
-			if off+len(pat) > n {
+			if off+len(pat) > n || allocViols >= 10 {
 				return
 			}
 			if it.idx == resItem && (off < resOff || off == resOff && patNo <= resPat) {
@@ -407,6 +408,12 @@ func hostile(c *evid.Ctx, items []item, w *shard.W, maxOff int) {
 			evals++
 			bound := uint64(64*n) + 1<<20
 			if grown > bound {
+				// a decoder that allocates from a hostile length costs up to seconds per case: after ten
+				// such violations this worker stops the pass (only ever reached on a broken tree)
+				allocViols++
+				if allocViols == 10 {
+					c.NotExhaustive("hostile pass stopped in one worker after 10 allocation violations")
+				}
 				c.Violation(fmt.Sprintf("C04:allocation:%s", it.kind), fmt.Sprintf("%s (%s): overwriting offset %d with % x makes the decoder allocate %d bytes for a %d-byte input (bound %d)", it.kind, it.desc, off, pat, grown, n, bound),
 					map[string]interface{}{"engine": "E4", "kind": it.kind, "encoding": fmt.Sprintf("%x", clip(it.bytes)), "offset": off, "pattern": fmt.Sprintf("%x", pat), "allocated": grown})
 			}
